@@ -3,6 +3,7 @@
 //! position) for the official and one random (key, iv); seeded part: several generators
 //! interleaved, request sizes from a per-run law, streams up to 2^16 / 2^20 words.
 
+use crate::gen_common::{par, par_order};
 use crate::prng::Prng;
 use crate::runner::{Sink, Tier};
 use crate::world::World;
@@ -128,24 +129,35 @@ pub fn run_c08(p: &mut Prng, t: Tier, i: usize, sink: &mut Sink) {
         }
         steps += 1;
         let g = *p.pick(&live);
-        let left = budget[g];
-        let n = match law {
-            0 => 1,
-            1 => 1usize << p.below(8),
-            2 => {
-                // geometric
-                let mut n = 1;
-                while p.chance(2, 3) && n < 200 {
-                    n += 1;
+        let draw = |p: &mut Prng, left: usize| -> usize {
+            let n = match law {
+                0 => 1,
+                1 => 1usize << p.below(8),
+                2 => {
+                    // geometric
+                    let mut n = 1;
+                    while p.chance(2, 3) && n < 200 {
+                        n += 1;
+                    }
+                    n
                 }
-                n
-            }
-            3 => if p.chance(1, 2) { 0 } else { p.range(1, 40) }, // many zero-length requests
-            4 => p.range(0, 64),
-            _ => if left > 5000 { left } else { p.range(1, 512) }, // one large request
+                3 => if p.chance(1, 2) { 0 } else { p.range(1, 40) }, // many zero-length requests
+                4 => p.range(0, 64),
+                _ => if left > 5000 { left } else { p.range(1, 512) }, // one large request
+            };
+            n.min(left)
         };
-        let n = n.min(left);
-        w.exec(req_op(&format!("g{g}"), n));
+        let n = draw(p, budget[g]);
+        // now and then two generators are driven by two simulated caller threads at once
+        let others: Vec<usize> = live.iter().copied().filter(|h| *h != g).collect();
+        if !others.is_empty() && p.chance(1, 20) {
+            let h = *p.pick(&others);
+            let m = draw(p, budget[h]);
+            w.exec(par(req_op(&format!("g{g}"), n), req_op(&format!("g{h}"), m), &par_order(p)));
+            budget[h] -= m;
+        } else {
+            w.exec(req_op(&format!("g{g}"), n));
+        }
         budget[g] -= n;
     }
     w.bump("history.seeded");
